@@ -1,6 +1,7 @@
 import HpxVerif.Lemmas.CoverLemmas
 import HpxVerif.Props.C15
 import HpxVerif.Lemmas.ConeReal
+import HpxVerif.Props.C16
 
 /-!
 # C06 — cone coverage flags are truthful and the coverage is tight
@@ -61,5 +62,14 @@ theorem cone_scheme_full_inside_real (cfg : Cfg) (lon lat r : ℝ) (hrpi : r ≤
     (c : Cell) (hc : c ∈ out) (hf : c.full = true) (q : ℝ × ℝ) (hq : inCell c.depth c.hash q) :
     adist (lon, lat) q < r :=
   cone_scheme_full_inside cfg lon lat r hrpi dists hD inCell target ds H1 fuel root out h c hc hf q hq
+
+/-- the table of limits that selects the starting depth is regular (each depth halves the limit, relative excess
+    `≈ 0.05·2^-k`): the obligation of C16 about the constants of the source, required here because the start cells of this
+    coverage are chosen with that table -/
+theorem start_depth_table_regular :
+    (∀ j, j < 24 →
+      C16.dyHalvingLo (j + 2) 1 25 (Gen.smallerEdge2OpEdgeDistDyadic.getD (j + 2) (0, 0)) (Gen.smallerEdge2OpEdgeDistDyadic.getD (j + 3) (0, 0)) = true ∧
+      C16.dyHalvingHi (j + 2) 1 10 (Gen.smallerEdge2OpEdgeDistDyadic.getD (j + 2) (0, 0)) (Gen.smallerEdge2OpEdgeDistDyadic.getD (j + 3) (0, 0)) = true) :=
+  C16.table_halving.1
 
 end Hpx.C06
